@@ -2,6 +2,7 @@ import FlacVerif.Model.Rfc
 import FlacVerif.Model.Md5
 import FlacVerif.Model.Component
 import FlacVerif.Model.Encoder
+import FlacVerif.Model.Encode
 import FlacVerif.Driver.Proto
 namespace FlacVerif.Drv
 open FlacVerif Proto
@@ -51,6 +52,41 @@ def streamOf (r : Rfc.Report) : Stream :=
 
 def kindName : Rfc.SubKind → String
   | .constant => "constant" | .verbatim => "verbatim" | .fixed => "fixed" | .lpc => "lpc"
+
+/-- Parses the oracle log `q:shift:precision:c_c_c;e:order:bits;…`. -/
+def parseOlog (s : String) : List OEvent :=
+  if s = "-" ∨ s = "" then [] else
+  (s.splitOn ";").filterMap fun ev =>
+    match ev.splitOn ":" with
+    | ["q", sh, pr, cs] =>
+      some (.qlpc ((if cs = "-" then [] else cs.splitOn "_").map fun t => t.toInt?.getD 0) (sh.toInt?.getD 0) (pr.toNat?.getD 0))
+    | ["e", o, b] => some (.est (o.toNat?.getD 0) (b.toNat?.getD 0))
+    | _ => none
+
+/-- Functional correspondence (DESIGN 1.1): replays the decision logic of the encoder on the
+logged oracle values, frame by frame, and compares the bytes. Returns the first disagreement. -/
+def functionalCheck (cfg : String) (chans : List (List Int)) (bps rate bs : Nat) (olog : List OEvent)
+    (frames : List (List Nat)) : Verdict := Id.run do
+  let sc : SubCfg := ⟨cfgNat cfg "uc" = 1, cfgNat cfg "uf" = 1, cfgNat cfg "ul" = 1, cfgNat cfg "fmo",
+                      cfgField cfg "sel" = "bc", cfgNat cfg "maxp"⟩
+  let st : StereoCfg := ⟨cfgNat cfg "ls" = 1, cfgNat cfg "rs" = 1, cfgNat cfg "ms" = 1⟩
+  let mut log := olog
+  let mut idx := 0
+  for fb in frames do
+    let block := chans.map fun c => (c.drop (idx * bs)).take bs
+    match encodeFrame sc st block bps rate idx log with
+    | none => return .diff "c09.functional" s!"frame {idx}: model encoder fails (panic site or oracle log exhausted)" "frame emitted"
+    | some (f, log') =>
+      log := log'
+      match f.bits rfcCrc8 rfcCrc16 with
+      | none => return .diff "c09.functional" s!"frame {idx}: model frame not serialisable" "frame emitted"
+      | some b =>
+        if packBytes b ≠ fb then
+          return .diff "c09.functional" s!"frame {idx}: {hex (packBytes b)}" (hex fb)
+    idx := idx + 1
+  if !log.isEmpty then
+    return .diff "c09.functional" "oracle log fully consumed" s!"{log.length} events left"
+  return .ok
 
 /-- All checks on one `stream` record; returns verdicts (tagged by property) and statistics. -/
 def streamRecord (r : Record) : List Verdict × List String := Id.run do
@@ -110,6 +146,15 @@ def streamRecord (r : Record) : List Verdict × List String := Id.run do
       vs := check "c08.streamcount" (toString ((ms.count).getD 0)) (r.get "impl_count") :: vs
       vs := check "c08.streambits" (toString b.length) (r.get "impl_count") :: vs
     vs := check "c15.verify" "1" (r.get "impl_verify") :: vs
+    -- functional view: the decision logic replayed on the logged oracle (single-thread records only)
+    if r.get "mode" = "st" ∧ (r.get? "olog").isSome then
+      let mut off := 42
+      let mut fbs : List (List Nat) := []
+      for f in rep.frames do
+        fbs := fbs ++ [(bytes.drop off).take f.byteLen]
+        off := off + f.byteLen
+      vs := functionalCheck cfg chans bps rate bs (parseOlog (r.get "olog")) fbs :: vs
+      stats := "functional=1" :: stats
     -- per frame
     for f in rep.frames do
       -- C02: the header codes the implementation chose are the ones the model's coders choose
